@@ -283,8 +283,10 @@ func rulePipeliningQueues(c *Check, a *Analysis, rule string) {
 		ok := false
 		for _, st := range p.fieldStoresIn(fn, "Conn", f) {
 			if cc, isC := p.canon(st.Val).(*ssa.Call); isC && calleeName(cc) == "scheduler.New" {
-				if k, isK := constInt(cc.Call.Args[0]); isK && k == 1 {
-					ok = true
+				if na := p.newArgs(cc); len(na) > 0 {
+					if k, isK := constInt(na[0]); isK && k == 1 {
+						ok = true
+					}
 				}
 			}
 		}
